@@ -26,6 +26,6 @@ def handle : List String → Option String
       | .ok s1 =>
         match runIdx s1 a2 a1.length with
         | .error i => s!"disabled@{i}"
-        | .ok s2 => s!"mid={boolStr s1.fin} end={boolStr s2.fin} closed={boolStr (s2.lClosed == nl)} count={s2.count} acked={boolStr (s2.acked ≥ s2.hooksReg)}")
+        | .ok s2 => s!"mid={boolStr s1.fin} end={boolStr s2.fin} late={boolStr s2.fin} closed={boolStr (s2.lClosed == nl)} count={s2.count} acked={boolStr (s2.acked ≥ s2.hooksReg)}")
   | _ => none
 end Drv.C10
